@@ -1,7 +1,7 @@
 //! The simulated deployment: one authority, encryptors, users and a store, connected by a
 //! simulated network (serialized bytes only) and advanced in lock-step with the reference model.
 
-use std::collections::{BTreeMap, BTreeSet, HashMap};
+use std::collections::{BTreeMap, BTreeSet};
 
 use cosmian_cover_crypt::{
     api::Covercrypt, AccessPolicy, AccessStructure, EncryptionHint, MasterPublicKey,
@@ -112,7 +112,7 @@ pub struct World {
     pub seq: u64,
     pub next_kid: u64,
     /// Serialized form of every user key version this authority issued -> its model twin.
-    pub issued: HashMap<Vec<u8>, MUsk>,
+    pub issued: BTreeMap<Vec<u8>, MUsk>,
     /// (t_backup, t_restore) windows that were rolled back.
     pub lost_windows: Vec<(u64, u64)>,
     /// Freshness registry: value class -> values seen.
@@ -202,7 +202,7 @@ impl World {
             now: 0,
             seq: 0,
             next_kid: 1,
-            issued: HashMap::new(),
+            issued: BTreeMap::new(),
             lost_windows: vec![],
             fresh: BTreeMap::new(),
             published: BTreeMap::new(),
@@ -224,10 +224,20 @@ impl World {
     }
 
     pub fn fail(&mut self, class: Class, what: impl Into<String>, detail: impl Into<String>) {
+        // error messages of the library may quote the whole input (megabytes): keep the head
+        let mut detail: String = detail.into();
+        if detail.len() > 400 {
+            let mut cut = 400;
+            while !detail.is_char_boundary(cut) {
+                cut -= 1;
+            }
+            detail.truncate(cut);
+            detail.push_str(" ...");
+        }
         self.failed.push(Obs {
             class,
             what: what.into(),
-            detail: detail.into(),
+            detail,
         });
     }
 
